@@ -23,8 +23,13 @@ K_CYCLIC_TD = 'taxonomy_depth:underreports-on-cyclic-graph'
 
 
 def build_lexicon(lid, g):
-    n, prs = g['n'], pairs(g['n'], g['loops'])
-    edges = edges_of(g['h'], prs)
+    n = g['n']
+    if 'edges' in g:            # explicit edge list (structured families beyond the exhaustive bound)
+        edges = [tuple(e) for e in g['edges']]
+        prs = []
+    else:
+        prs = pairs(g['n'], g['loops'])
+        edges = edges_of(g['h'], prs)
     inst = set(edges_of(g.get('inst', 0), prs))
     pos = g.get('pos') or 'n' * n
     hypo_mode = g.get('hypo', 'recip')
@@ -215,7 +220,7 @@ def check(case):
     for lid, g, edges, hypo in built:
         v, d = check_graph(lid, g, edges, hypo)
         V.extend(v)
-        if g['h']:
+        if g.get('h') or g.get('edges'):
             nt += 1
             digs.append(d)
     d = env.db_path().parent
@@ -223,8 +228,61 @@ def check(case):
     return {'v': V, 'digs': digs, 'nt': nt, 'n': len(gs)}
 
 
+def family_graphs(tier):
+    """Structured DAG families beyond the exhaustive node bound, derived from the shape of the
+    definitions: two chains x -> ... -> t <- ... <- y (lengths 0..3) where x, y and the inner nodes may
+    have an extra hypernym that is a root of its own or a root shared with another node - the
+    graphs on which a path through the simulated root, a second lowest common hypernym or a
+    shortcut edge competes with the path through the real common hypernym."""
+    out = []
+    L = (0, 1, 2, 3)
+    for la in L:
+        for lb in L:
+            if la + lb == 0:
+                continue
+            # nodes: t = 0, chain A = 1..la (x = la, or t if la == 0), chain B = la+1..la+lb
+            a = list(range(1, la + 1))
+            b = list(range(la + 1, la + lb + 1))
+            edges = []
+            prev = 0
+            for v in a:
+                edges.append((v, prev))
+                prev = v
+            x = prev
+            prev = 0
+            for v in b:
+                edges.append((v, prev))
+                prev = v
+            y = prev
+            n0 = 1 + la + lb
+            cand = sorted({x, y} | (set(a[:1]) | set(b[:1]) if tier == 'thorough' else set()))
+            opts = [()] + [(c,) for c in cand] + [(c, d) for c in cand for d in cand if c < d]
+            for sh in opts:
+                for shared in ((False, True) if len(sh) == 2 else (False,)):
+                    e2 = list(edges)
+                    n = n0
+                    if shared:
+                        for c in sh:
+                            e2.append((c, n))
+                        n += 1
+                    else:
+                        for c in sh:
+                            e2.append((c, n))
+                            n += 1
+                    if n <= 4:
+                        continue        # covered exhaustively
+                    out.append({'n': n, 'edges': [list(e) for e in e2]})
+    # shortcut edges on a chain: c0 -> c1 -> ... -> ck plus one skip edge
+    for k in (4, 5):
+        for i in range(k):
+            for j in range(i + 2, k + 1):
+                e2 = [[v, v + 1] for v in range(k)] + [[i, j]]
+                out.append({'n': k + 1, 'edges': e2})
+    return out
+
+
 def space(tier, seed):
-    gs = []
+    gs = family_graphs(tier)
     # all labelled digraphs with self-loops, n <= 3, both hyponym-declaration modes
     for n in (1, 2, 3):
         for h in range(1 << (n * n)):
